@@ -38,6 +38,12 @@ def bounds(tier):
     return {'n_max_exhaustive': 5 if tier == 'quick' else 6, 'recovery_cells': 15, 'K': 12 if tier == 'quick' else 40, 'n_recovery': N_REC}
 
 
+def prefork():
+    for n in (2, 3, 4, 5):
+        A.rank_patterns(n)
+    A.korobov_generator(N_REC + 1, 2)
+
+
 def cases(tier, seed):
     out = []
     K = 12 if tier == 'quick' else 40
@@ -104,6 +110,7 @@ def run_case(case):
     kind = case[0]
     if kind == 'patterns':
         _, n, start, stop, mapping, _ = case
+        kept = []
         for idx in range(start, stop):
             X = A.pattern_array(n, idx, mapping)
             tag = f'n={n} pattern#{idx} {mapping}'
@@ -133,6 +140,8 @@ def run_case(case):
                 continue
             fam = type(res).__name__.lower()
             r.outcome(fam)
+            if len(kept) < 40:
+                kept.append((tag, res, (type(res).__name__, res.tau, res.theta)))
             if tref <= 0 and fam != 'frank':
                 r.violation('C11:nonpositive-tau-not-frank', f'select_copula({tag}): tau={tref!r} <= 0 but family={fam}',
                             case=case, X=X)
@@ -149,6 +158,13 @@ def run_case(case):
                     r.violation('C11:non-deterministic', f'select_copula({tag}): {what} gives '
                                 f'{type(other).__name__}({other.theta!r}) vs {type(res).__name__}({res.theta!r})',
                                 case=case, X=X)
+        # results returned earlier must not change when select_copula is called again (no state shared between results)
+        for (tag_, res_, snap_) in kept:
+            now = (type(res_).__name__, res_.tau, res_.theta)
+            if now != snap_ and not (snap_[2] != snap_[2] and now[2] != now[2]):
+                r.violation('C11:result-changed-by-later-call', f'the copula returned by select_copula({tag_}) was {snap_} and is '
+                            f'{now} after later select_copula calls', case=case)
+                break
         r.hit(f'n={n}', stop - start)
         r['sample'] = {'n': n, 'pattern_index': start, 'mapping': mapping,
                        'X': A.pattern_array(n, start, mapping).tolist()}
